@@ -12,6 +12,7 @@ positivity of every base of a real power), plus u₀ > 0 (positive density) for 
 import EPV.Gen.Cog16D
 import EPV.Spec.Euler1D
 import EPV.Lemmas.Euler1Db
+import EPV.Lemmas.HydroRobust
 import EPV.Tactics
 
 set_option linter.all false
@@ -26,8 +27,8 @@ theorem cog16_leaves : Cog16.okLeaves = [0] := rfl
 theorem cog16_mass (p : Cog16.P) (r t : ℝ) (hr : 0 < r) :
     massRes (Cog16.L0.density p) (Cog16.L0.velocity p) (p.geometry - 1) r t = 0 := by
   unfold massRes dr dt
-  rw [(Cog16.L0.density_hasDerivAt_t p r t).deriv, (Cog16.L0.density_hasDerivAt_r p r t hr).deriv,
-    (Cog16.L0.velocity_hasDerivAt_r p r t hr).deriv]
+  epv_hydro_rw_derivs [Cog16.L0.density_hasDerivAt_t p r t, Cog16.L0.density_hasDerivAt_r p r t,
+    Cog16.L0.velocity_hasDerivAt_r p r t]
   simp only [epv_deriv, epv_leaf]
   have hr' := hr.ne'
   field_simp
@@ -38,14 +39,14 @@ theorem cog16_momentum (p : Cog16.P) (r t : ℝ) (hwd : Cog16.L0.WellDefined p r
   obtain ⟨hA, hb, hkb, hΓ, hx1, hdenne, hr, -, -, hρne, hγ⟩ := hwd
   have hρr : dr (Cog16.L0.density p) r t = (-(p.geometry - 1) - p.b) * Cog16.L0.density p r t / r := by
     unfold dr
-    rw [(Cog16.L0.density_hasDerivAt_r p r t hr).deriv]
+    epv_hydro_rw_derivs [Cog16.L0.density_hasDerivAt_r p r t]
     simp only [epv_deriv, epv_leaf]
     ring
   unfold momResT
   rw [hρr]
   unfold dr dt
-  rw [(Cog16.L0.velocity_hasDerivAt_t p r t).deriv, (Cog16.L0.velocity_hasDerivAt_r p r t hr).deriv,
-    (Cog16.L0.temperature_hasDerivAt_r p r t hr).deriv]
+  epv_hydro_rw_derivs [Cog16.L0.velocity_hasDerivAt_t p r t, Cog16.L0.velocity_hasDerivAt_r p r t,
+    Cog16.L0.temperature_hasDerivAt_r p r t]
   have hρne' : Cog16.L0.density p r t ≠ 0 := hρne
   generalize Cog16.L0.density p r t = ρ at hρne' ⊢
   simp only [epv_deriv, epv_leaf]
@@ -87,16 +88,16 @@ theorem cog16_energy (p : Cog16.P) (r t : ℝ) (hwd : Cog16.L0.WellDefined p r t
     epv_rpow_eq
   have hTr : dr (Cog16.L0.temperature p) r t = ((2 : ℝ) * p.b) * Cog16.L0.temperature p r t / r := by
     unfold dr
-    rw [(Cog16.L0.temperature_hasDerivAt_r p r t hr).deriv]
+    epv_hydro_rw_derivs [Cog16.L0.temperature_hasDerivAt_r p r t]
     simp only [epv_deriv, epv_leaf]
     ring
   have hTt : dt (Cog16.L0.temperature p) r t = 0 := by
     unfold dt
-    rw [(Cog16.L0.temperature_hasDerivAt_t p r t).deriv]
+    epv_hydro_rw_derivs [Cog16.L0.temperature_hasDerivAt_t p r t]
     simp only [epv_deriv]
   have hur : dr (Cog16.L0.velocity p) r t = p.b * Cog16.L0.velocity p r t / r := by
     unfold dr
-    rw [(Cog16.L0.velocity_hasDerivAt_r p r t hr).deriv]
+    epv_hydro_rw_derivs [Cog16.L0.velocity_hasDerivAt_r p r t]
     simp only [epv_deriv, epv_leaf]
     ring
   have hρpos : 0 < Cog16.L0.density p r t := by rw [hρ r hr]; positivity
